@@ -942,7 +942,7 @@ def call_builtin(I, fv: BoundV, args: list, kwargs: dict, st, node=None) -> list
             return [(recv.get(args[0], args[1] if len(args) > 1 else None) if hashable(args[0]) else Unknown("get"), st)]
         if name in ("items", "keys", "values"):
             return [(tuple(getattr(recv, name)()), st)]
-    if isinstance(recv, str) and all(is_concrete(a) and not isinstance(a, EnumV) for a in args) and not kwargs or (isinstance(recv, str) and name in ("split",) and all(is_concrete(a) for a in list(args) + list(kwargs.values()))):
+    if isinstance(recv, str) and all(is_concrete(a) and not isinstance(a, EnumV) for a in list(args) + list(kwargs.values())) and (not kwargs or name in ("splitlines", "split", "rsplit", "encode", "expandtabs")) or (isinstance(recv, str) and name in ("split",) and all(is_concrete(a) for a in list(args) + list(kwargs.values()))):
         if name == "join":
             pass
         elif name == "format":
